@@ -1264,3 +1264,9 @@ fault("c07-stat-of-the-case-folded-selector", "C07", "R07u",
       (HM, "        statresult = vfs.stat(selector)\n", "        statresult = vfs.stat(selector.lower())\n"))
 twin("c07-twin-stat-through-an-alias", "C07",
      (HM, "        statresult = vfs.stat(selector)\n", "        asked = selector\n        statresult = vfs.stat(asked)\n"))
+fault("c19-handlers-warmed-up-before-the-dropper", "C19", "R19k",
+      (INIT, "from pygopherd.server import GopherRequestHandler\n", "from pygopherd.server import GopherRequestHandler\nfrom pygopherd.handlers import HandlerMultiplexer\n"),
+      (INIT, "    init_signal_handlers()\n    init_security(config)\n", "    init_signal_handlers()\n    HandlerMultiplexer.init_default_handlers(config)\n    init_security(config)\n"))
+twin("c19-twin-handlers-warmed-up-inside-the-jail", "C19",
+     (INIT, "from pygopherd.server import GopherRequestHandler\n", "from pygopherd.server import GopherRequestHandler\nfrom pygopherd.handlers import HandlerMultiplexer\n"),
+     (INIT, "    init_signal_handlers()\n    init_security(config)\n", "    init_signal_handlers()\n    init_security(config)\n    HandlerMultiplexer.init_default_handlers(config)\n"))
